@@ -15,7 +15,7 @@ ASSUMPTIONS = ['expression depth <= 2, string bodies <= 2/3 characters over {a, 
 OUT = 'AstInterpreter / IntrospectionInterpreter data flow (needs an Environment and files), info JSON, project() default-options editing, multi-line strings with trailing whitespace before a newline (known finding)'
 MANIFEST = dict(
     text='Bounded symbolic decision: for ALL expression shapes up to depth 2 and all string bodies within the bound, re-printing preserves the tree; for all preceding texts within the '
-         'bound the splice touches exactly the edited construct. Claimed for re-printing and splicing; target discovery outside.',
+         'bound the splice touches exactly the edited construct. Also kwargs set/delete/add/remove and default-options set/delete through the real process_kwargs with symbolic values. Target discovery (IntrospectionInterpreter, pathlib) is outside.',
     note='Trusted: symx engine, z3, the structural tree comparison. Bounds: depth 2, 1 symbolic string per statement (<=3 chars), preceding comment/string bodies <=2 chars, <=2 edited nodes.')
 
 mp = AstPrinter = R = None
